@@ -1054,6 +1054,7 @@ func (c *Conn) writeHandshakeRecord(msg handshakeMessage, transcript transcriptH
 	if err != nil {
 		return 0, err
 	}
+	data = verifHookOutgoingHandshake(c, msg, data)
 	if transcript != nil {
 		transcript.Write(data)
 	}
